@@ -54,6 +54,13 @@ def kinds(steps):
                     k = "rm-down-peer"
                 if s["p"] == "p1" and "rm-self" != k:
                     ks.add("rm-first-leader")
+        if k in ("pin", "unpin", "add", "rm") and i > 0:
+            prev = steps[i - 1]
+            if prev["a"] == "restart" and prev["p"] == s["at"]:
+                ks.add("op-at-just-restarted-peer")
+            if (prev["a"] == "shutdown" and prev["p"] == "p1" and s["at"] != "p1") or \
+               (prev["a"] == "rm" and prev["out"] == "ok" and prev["p"] == "p1"):
+                ks.add("op-right-after-first-leader-left")
         if k in ("cpin", "cunpin"):
             k += ("-at-leader" if s["at"] == s["p"] == "p1" else "-at-follower" if s["at"] == s["p"] else "-redirect") + "-" + s["out"]
         if k == "join" and s["pins"]:
@@ -140,10 +147,16 @@ def concretise(ctx, rng, scripts):
     rm_err = [sc for sc in scripts if has(sc, lambda st: st["a"] == "rm" and st["out"] == "error")]
     rng.shuffle(rm_ok)
     rng.shuffle(rm_err)
+    window = [sc for sc in scripts if kinds(sc["steps"]) & {"op-at-just-restarted-peer", "op-right-after-first-leader-left"}]
+    rng.shuffle(window)
+    rm_ok = [sc for sc in window if sc in rm_ok] + [sc for sc in rm_ok if sc not in window]
     zero = rm_err[:1] + [sc for sc in rm_ok if sc not in rm_err[:1]][:2 if ctx.quick() else 12]
+    zero += [sc for sc in window if sc not in zero][:2 if ctx.quick() else 12]
     one = [sc for sc in rm_ok if sc not in zero][:2 if ctx.quick() else 12]
+    ctx.extra["leaderless_window_scripts"] = len([sc for sc in zero if sc in window])
     for sc in zero:
         sc["retries"] = 0
+        sc["leaderless"] = True     # operations are issued inside leaderless windows where the script has one
     for sc in one:
         sc["retries"] = 1
     if not zero:
